@@ -63,7 +63,7 @@ def main : IO Unit := do
   | some (.list [.atom "model", .atom "parents"]) =>
     loop h out ({} : Parents.Heap) Parents.driverStep {}
   | some (.list [.atom "model", .atom "cross"]) =>
-    loop h out ({} : Cross.State) Cross.driverStep {}
+    loop h out ({} : Cross.OState) Cross.driverStep {}
   | some (.list [.atom "model", .atom "ext"]) =>
     loop h out ({} : Ext.DState) Ext.driverStep {}
   | _ => out.putStrLn "unknown-model"
